@@ -918,11 +918,27 @@ impl Gen<'_> {
         op.dataseed = self.r.next();
         // a fifth of the vectors handed to a float constructor carry spare capacity
         op.consume = u64::from(op.dataseed % 5 == 0);
+        if op.dataseed % 97 == 0 {
+            // an empty image: zero pixels, one dimension possibly still a threshold value
+            match op.dataseed / 97 % 3 {
+                0 => op.geo[1] = 0,
+                1 => op.geo[2] = 0,
+                _ => {
+                    op.geo[1] = 0;
+                    op.geo[2] = 0;
+                }
+            }
+            op.geo[0] = 0;
+        }
         let special = if self.prof == Profile::Safety { 30 } else { 8 };
         op.datamode = if self.r.pct(5) && class != CL_HSL {
             7 // grey pixels on quantisation boundaries
         } else if self.r.pct(6) {
-            6 // runs of repeated pixels with sign flips of zeros
+            if op.dataseed % 2 == 0 {
+                9 // runs of near-duplicates (a few ulps apart)
+            } else {
+                6 // runs of repeated pixels with sign flips of zeros
+            }
         } else if self.prof == Profile::Metadata && class != CL_HSL && self.r.pct(80) {
             0
         } else if class == CL_HSL && self.r.pct(70) {
